@@ -971,8 +971,13 @@ impl InferContext {
 
     /// Register type aliases from ModuleInfo into the type environment
     fn register_type_aliases(&mut self, type_aliases: &crate::ast::program::TypeAliasMap) {
-        // Store type aliases for resolution during unification
+        // Store type aliases for resolution during unification.
+        // An alias on a cycle cannot be expanded (it is reported below): it is left unregistered,
+        // so that resolving it stops at the name instead of recursing forever.
         for (alias_name, target_type) in type_aliases {
+            if Self::detect_type_alias_cycle(*alias_name, type_aliases).is_some() {
+                continue;
+            }
             self.type_aliases.insert(*alias_name, *target_type);
             // Also add to environment for name resolution
             self.env
